@@ -28,7 +28,7 @@ Id(e, r, role, g, neg) == Tk("IDENT", e, r, role, g, neg)
 \*   4 as 1, with a blank in front of the ':' of the architecture qualifier (both readers skip blanks there)
 Opt(s)  == IF s = 2 THEN <<>> ELSE IF s = 3 THEN <<W>> ELSE <<W>>      \* before ( [ <
 In(s)   == IF s = 3 THEN <<W>> ELSE <<>>                               \* after ( [ <  and before ) ] >
-OpV(s)  == IF s = 2 THEN <<>> ELSE <<W>>                               \* between operator and version
+OpV(s)  == IF s = 2 THEN <<>> ELSE IF s = 6 THEN <<NLt, W>> ELSE <<W>>   \* between operator and version (6: a line break there)
 
 OpToks(op, e, r) ==
   CASE op = 1 -> <<Tk("L_ANGLE", e, r, "op", 0, FALSE), Tk("L_ANGLE", e, r, "op", 0, FALSE)>>
@@ -190,6 +190,8 @@ RandInit ==
 MCInit ==
   \* every single relation of the option lattice, in each inner layout
   \/ \E v \in GoodV : \E s \in (IF v.aq THEN 1..4 ELSE 1..3) : InitWith(MkCase(Field(<<E1(v)>>, s, DefC, DefP, <<>>, FALSE, <<>>), <<E1(v)>>, FALSE))
+  \/ \E v \in { x \in GoodV : x.op # 0 } :
+       InitWith([MkCase(Field(<<E1(v), E1(Simple)>>, 6, DefC, DefP, <<>>, FALSE, <<>>), <<E1(v), E1(Simple)>>, FALSE) EXCEPT !.nlin = TRUE])
   \/ \E v \in { x \in BigV : \E g \in 1..Len(x.profs) : Len(x.profs[g]) >= 2 } :
        InitWith([MkCase(Field(<<E1(v)>>, 5, DefC, DefP, <<>>, FALSE, <<>>), <<E1(v)>>, FALSE) EXCEPT !.nlin = TRUE])
   \* alternatives and several entries, each separator layout
